@@ -212,7 +212,7 @@ def bnd_roundtrip(tier, seed):
                 fails.add("header-only-function", {"function": fname}, f"{type(exc).__name__}: {exc}")
             continue
         widths = (0, 1, 2) if tier == "quick" else (0, 1, 2, 3)
-        picks = range(0, 10) if tier == "quick" else range(0, 16)
+        picks = range(0, 28)       # a Dynamic item has up to 2 candidate values for each of its (at most 13) alternative types
         for width in widths:
             for pick in picks:
                 probe = cls()
@@ -243,5 +243,5 @@ def bnd_roundtrip(tier, seed):
                 elif not R.same(back.get(), got) or back.encode() != body:
                     fails.add("decoded-value-equal", dict(w, got=repr(back.get())[:140]), "decoded value differs from the encoded one")
     return {"evaluations": n_eval, "distinct": len(distinct), "failures": list(fails),
-            "scope": "134 functions x open-list lengths 0..2 (thorough 0..3) x up to 10 (thorough 16) rotations through the alternative types / boundary lengths of the data items",
+            "scope": "134 functions x open-list lengths 0..2 (thorough 0..3) x 28 rotations through the alternative types (every alternative of every item) / boundary lengths of the data items",
             "rule": "distinct = (function, open-list length, alternative index)", "samples": [{"function": "S2F33", "open_list_length": 2}]}
